@@ -143,7 +143,7 @@ def main(tier, seed):
 
     def variants(sdir, fexp):
         """(label, cwd, argv path, env, prefix)"""
-        big = {"PATH": "/usr/bin:/bin", "VERIF_PADDING": "x" * 6000, "LC_ALL": "tr_TR.UTF-8", "LANG": "tr_TR.UTF-8", "TZ": "Pacific/Kiritimati"}
+        big = {"PATH": "/usr/bin:/bin", "VERIF_PADDING": "x" * 6000, "LC_ALL": "C.utf8", "LANG": "C.utf8", "LC_CTYPE": "C.utf8", "TZ": "Pacific/Kiritimati"}
         small = {"PATH": "/usr/bin:/bin", "LC_ALL": "C"}
         v = [("a", os.path.join(sdir, "out_a"), fexp, small, []),
              ("b", os.path.join(sdir, "deep", "er", "out_b"), os.path.relpath(fexp, os.path.join(sdir, "deep", "er", "out_b")), big,
@@ -156,7 +156,7 @@ def main(tier, seed):
         sdir = os.path.join(wroot, tag)
         os.makedirs(sdir)
         fexp = os.path.join(sdir, "schema.exp")
-        open(fexp, "w").write(text)
+        open(fexp, "w", encoding="utf-8").write(text)
         for tname in which:
             outs = []
             for (lab, cwd, argp, env, prefix) in variants(sdir, fexp):
@@ -228,6 +228,15 @@ def main(tier, seed):
         hist["schemas"] += 1
         det_check("g%d" % k, text, ["exp2cxx", "exp2python", "exppp", "schema_scanner"])
     det_check("bounds", BOUND_SCHEMA, ["exp2cxx", "exp2python", "exppp", "schema_scanner"])
+    # text that is not ASCII inside string literals, on lines near the wrapping limit (variant b runs in a UTF-8 locale)
+    UTF8_SCHEMA = ("SCHEMA utf8_text;\nCONSTANT\n  names : LIST OF STRING := [" + ", ".join("'%s'" % w for w in
+                   ["Z\u00fcrich", "Krak\u00f3w", "Besan\u00e7on", "M\u00e1laga", "\u00c5rhus", "\u0141\u00f3d\u017a", "Gy\u0151r", "\u0160kofja Loka", "\u00c7anakkale",
+                    "Reykjav\u00edk", "Troms\u00f8", "Plze\u0148", "Coimbr\u00e3", "\u00d6sterreich", "T\u00fcrkiye"] * 2) + "];\n"
+                   "  greeting : STRING := 'Gr\u00fc\u00df Gott';\nEND_CONSTANT;\nENTITY city;\n  name : STRING;\n  country : STRING;\nWHERE\n"
+                   "  w1 : (name <> 'D\u00fcsseldorf') OR (country = '\u00d6sterreich') OR (country = 'Rom\u00e2nia') OR (country = 'Espa\u00f1a') OR (country = 'T\u00fcrkiye') OR (country = 'C\u00f4te');\n"
+                   "  w2 : NOT (name IN ['S\u00e3o Paulo', 'Besan\u00e7on', 'Z\u00fcrich', 'Krak\u00f3w', 'M\u00e1laga', '\u00c5rhus', '\u0141\u00f3d\u017a', 'Gy\u0151r', '\u0160kofja Loka', '\u00c7anakkale', 'Troms\u00f8']);\n"
+                   "END_ENTITY;\nFUNCTION describe (c : city) : STRING;\n  RETURN ('Citt\u00e0: ' + c.name + ' \u2014 pa\u00eds/Land/zem\u011b: ' + c.country + ' \u2014 Gr\u00f6\u00dfe unbekannt, poblaci\u00f3n desconocida, po\u010det obyvatel nezn\u00e1m\u00fd');\nEND_FUNCTION;\nEND_SCHEMA;\n")
+    det_check("utf8", UTF8_SCHEMA, ["exppp", "exp2cxx", "exp2python"])
     for k in range(3 if tier == "quick" else 40):
         hist["schemas"] += 1
         det_check("multi%d" % k, multi_use_schema(rng(seed, "c12m/%d" % k), k), ["exp2cxx", "exppp", "schema_scanner", "exp2python"])
